@@ -27,11 +27,26 @@ func StorFlushOrder(f *File) (string, int) {
 		}
 	}
 	hdrFromFlush := false
+	// second accepted shape (rollback-capable writer): `entries := fw.buffer.GetEntriesAndClear()` followed by
+	// `header, compressed, err := CompressEntries(entries)` — the same bytes as fw.buffer.Flush()
+	takes := false
+	for _, st := range f.Stmts(fd.Body) {
+		if as, ok := st.(*ast.AssignStmt); ok && len(as.Lhs) == 1 && len(as.Rhs) == 1 &&
+			f.Str(as.Lhs[0]) == "entries" && f.Str(as.Rhs[0]) == "fw.buffer.GetEntriesAndClear()" {
+			takes = true
+		}
+		if as, ok := st.(*ast.AssignStmt); ok && takes && len(as.Lhs) == 3 && len(as.Rhs) == 1 &&
+			f.Str(as.Rhs[0]) == "CompressEntries(entries)" && f.Str(as.Lhs[0]) == "header" && f.Str(as.Lhs[1]) == "compressed" {
+			hdrFromFlush = true
+		}
+	}
 	for _, st := range f.Stmts(fd.Body) {
 		if as, ok := st.(*ast.AssignStmt); ok && len(as.Lhs) == 3 && len(as.Rhs) == 1 &&
 			f.Str(as.Rhs[0]) == "fw.buffer.Flush()" && f.Str(as.Lhs[0]) == "header" && f.Str(as.Lhs[1]) == "compressed" {
 			hdrFromFlush = true
 		}
+		// rollback-capable writer: `taken := fw.buffer.entries` before Flush (kept for Restore on failure)
+		// does not change which bytes are written, nor their order
 	}
 	line := f.Line(fd)
 	switch {
